@@ -1,0 +1,120 @@
+//go:build verif
+
+// Machine-checked contracts for package sessions (read by /verif/bin/gvc; comment-only, adds no declarations).
+package sessions
+
+// The LRU of cookie jars is shared by all request goroutines and is mutated by Get (recency) as well as Add.
+//@ type Cache
+//@   guarded cache by mu
+
+// cachedCookieJar: the jar returned is the one stored under exactly this session id, or a new jar that is stored under
+// exactly this session id. Rely (guaranteed by addJarToCache, the only writer): cache values are cookie jars.
+//@ func (*Cache).cachedCookieJar props(C10,C07)
+//@   requires c != nil && c.cache != nil && !held(c.mu)
+//@   assigns ghost lruHas[c.cache], ghost lruEv[c.cache]
+//@   ghost hit bool = false
+//@   ghost got ref = nil
+//@   ghost stored ref = nil
+//@   call (*lru.Cache).Get
+//@     assert[C10:lookup-under-this-session-id] arg0 == c.cache && typeis(arg1, "string") && ifaceStr(arg1) == sessionID
+//@     do hit = ret1
+//@     do got = ret0
+//@     assume ret1 ==> ret0 != nil && implements(ret0, "http.CookieJar")
+//@   call (*Cache).addJarToCache
+//@     assert[C10:new-jar-stored-under-this-session-id] !hit && arg0 == c && arg1 == sessionID && arg2 != nil
+//@     do stored = arg2
+//@   ensures[C10:jar-of-this-session] err == nil ==> jar != nil && ((hit && jar == got) || (!hit && jar == stored))
+//@   ensures[C07:lookup-never-fails] err == nil
+
+//@ func (*Cache).addJarToCache props(C10,C07)
+//@   requires c != nil && c.cache != nil && !held(c.mu)
+//@   assigns ghost lruHas[c.cache], ghost lruEv[c.cache]
+//@   call (*lru.Cache).Add
+//@     assert[C10:store-jar-under-given-id] held(c.mu) && arg0 == c.cache && ifaceStr(arg1) == sessionID && arg2 == jar
+
+// WriteHeader: backend cookies never reach the client; the only Set-Cookie is the agent's session cookie, issued only
+// when the request carried no session; intercepted cookies go to the jar of exactly this writer's session.
+//@ func (*sessionResponseWriter).WriteHeader props(C10,C07)
+//@   requires w != nil && w.c != nil && w.c.cache != nil && !held(w.c.mu) && w.wrapped != nil && w.urlForCookies != nil && rwWrites[w.wrapped] == 0
+//@   ghost commits int = 0
+//@   ghost jarG ref = nil
+//@   ghost now time.Time
+//@   ghost exp time.Time
+//@   ghost issued bool = false
+//@   ghost cookieText string = ""
+//@   call time.Now
+//@     do now = ret0
+//@   call (time.Time).Add
+//@     assert[C10:expiry-is-now-plus-lifetime] arg0 == now && arg1 == w.c.sessionCookieTimeout
+//@     do exp = ret0
+//@   call (*http.Cookie).String
+//@     assert[C10:session-cookie-attributes] old(w.sessionID) == "" && arg0.Name == w.c.sessionCookieName && arg0.Value == w.sessionID && w.sessionID != "" && arg0.Path == "/" && arg0.HttpOnly && arg0.Secure == !w.c.disableSSLForTest && arg0.Expires == exp && arg0.Domain == "" && arg0.MaxAge == 0
+//@     do issued = true
+//@     do cookieText = ret0
+//@   call (*Cache).cachedCookieJar
+//@     assert[C10:jar-of-this-writers-session] arg0 == w.c && arg1 == w.sessionID && w.sessionID != ""
+//@     do jarG = ret0
+//@   call (http.CookieJar).SetCookies
+//@     assert[C10:backend-cookies-go-to-this-sessions-jar] arg0 == jarG && arg1 == w.urlForCookies && arg2 == cookiesToAdd
+//@   call (http.ResponseWriter).WriteHeader
+//@     assert[C10:commit-once-with-given-status] commits == 0 && arg0 == w.wrapped && arg1 == statusCode
+//@     assert[C10:only-the-session-cookie-is-set] (old(w.sessionID) != "" ==> !in("Set-Cookie", rwHeaderOf(w.wrapped)))
+//@     |   && (old(w.sessionID) == "" ==> issued && in("Set-Cookie", rwHeaderOf(w.wrapped)) && len(rwHeaderOf(w.wrapped)["Set-Cookie"]) == 1 && rwHeaderOf(w.wrapped)["Set-Cookie"][0] == cookieText)
+//@     do commits = commits + 1
+//@   ensures[C10:second-call-is-noop] old(w.wroteHeader) ==> commits == 0
+//@   ensures[C10:first-call-commits] !old(w.wroteHeader) ==> commits == 1 && w.wroteHeader
+
+// restoreSession: the Cookie header becomes the client's cookies without the session cookie (every other one kept, in
+// order), followed by the cached cookies of the session in order.
+//@ func (*sessionHandler).restoreSession props(C10,C07)
+//@   requires h != nil && h.c != nil && r != nil && r.Header != nil && forall(i, 0, len(cachedCookies), cachedCookies[i] != nil)
+//@   assigns mapof(r.Header)
+//@   ghost phase int = 0
+//@   ghost kept map[int]bool = zero
+//@   ghost restored int = 0
+//@   call (*http.Request).Cookies
+//@     assert[C10:read-client-cookies-first] phase == 0 && arg0 == r
+//@     do phase = 1
+//@   call (http.Header).Del
+//@     assert[C10:drop-the-whole-cookie-header] phase == 1 && arg0 == r.Header && arg1 == "Cookie"
+//@     do phase = 2
+//@   call (*http.Request).AddCookie
+//@     assert[C10:re-add-in-order] arg0 == r && phase == 2 && ((inloop == 1 && arg1 == existingCookies[idx] && arg1.Name != h.c.sessionCookieName) || (inloop == 2 && arg1 == cachedCookies[idx] && restored == idx))
+//@     do kept[idx] = ite(inloop == 1, true, kept[idx])
+//@     do restored = restored + ite(inloop == 2, 1, 0)
+//@   ensures[C10:all-cached-cookies-restored] restored == len(cachedCookies)
+//@   loop 1
+//@     invariant[C10:client-cookies-kept-except-session] phase == 2 && restored == 0 && forall(j, 0, idx + 1, kept[j] <==> existingCookies[j].Name != h.c.sessionCookieName) && forall(j, idx + 1, len(existingCookies), !kept[j])
+//@   loop 2
+//@     invariant[C10:cached-cookies-in-order] phase == 2 && restored == idx + 1 && forall(j, 0, len(existingCookies), kept[j] <==> existingCookies[j].Name != h.c.sessionCookieName)
+
+// ServeHTTP: the jar consulted and the writer handed on are those of the session id presented by this very request;
+// cookies are looked up for the request URL with scheme https and the request's Host; the wrapped handler runs once.
+//@ func (*sessionHandler).ServeHTTP props(C10,C07)
+//@   requires h != nil && h.c != nil && h.c.cache != nil && !held(h.c.mu) && h.wrapped != nil && w != nil && r != nil && r.URL != nil && r.Header != nil && rwWrites[w] == 0
+//@   ghost sid string = ""
+//@   ghost jarG ref = nil
+//@   ghost served int = 0
+//@   call (*sessionHandler).extractSessionID
+//@     assert[C10:session-id-of-this-request] arg0 == h && arg1 == r
+//@     do sid = ret0
+//@   call (*Cache).cachedCookieJar
+//@     assert[C10:jar-of-the-presented-session] arg0 == h.c && arg1 == sid
+//@     do jarG = ret0
+//@   call (http.CookieJar).Cookies
+//@     assert[C10:cookies-for-the-https-request-url] arg0 == jarG && arg1 == &urlForCookies && urlForCookies.Scheme == "https" && urlForCookies.Host == r.Host && urlForCookies.Path == r.URL.Path && urlForCookies.RawQuery == r.URL.RawQuery
+//@     assume forall(i, 0, len(ret0), ret0[i] != nil)
+//@   call (*sessionHandler).restoreSession
+//@     assert[C10:restore-into-this-request] arg0 == h && arg1 == r && arg2 == cachedCookies
+//@   call (http.Handler).ServeHTTP
+//@     assert[C10:wrapped-handler-once-with-this-sessions-writer] served == 0 && arg0 == h.wrapped && arg2 == r && typeis(arg1, "*sessions.sessionResponseWriter")
+//@     |   && cast(unboxRef(arg1, "*sessions.sessionResponseWriter"), "*sessionResponseWriter").sessionID == sid
+//@     |   && cast(unboxRef(arg1, "*sessions.sessionResponseWriter"), "*sessionResponseWriter").c == h.c
+//@     |   && cast(unboxRef(arg1, "*sessions.sessionResponseWriter"), "*sessionResponseWriter").urlForCookies == &urlForCookies
+//@     |   && !cast(unboxRef(arg1, "*sessions.sessionResponseWriter"), "*sessionResponseWriter").wroteHeader
+//@     do served = served + 1
+//@   ensures[C10:served-or-500] served == 1 || (rwStatus[w] == 500 && rwWrites[w] == 1)
+
+//@ func (*Cache).SessionHandler props(C10,C07)
+//@   assigns nothing
+//@   ensures[C10:disabled-means-unwrapped] c == nil ==> r0 == wrapped
